@@ -1,4 +1,4 @@
-import GomlVerif.Lemmas.GoCompStruct
+import GomlVerif.Lemmas.GoCompHeap
 /-!
 Forward simulation `Sem` (ANF) ⟶ `Go.Sem` (output of `GoCompile`) for stage (a): statements of the
 induction (`SimAt n`, one field per mutually dependent statement, indexed by the `Sem` fuel) and the
@@ -23,6 +23,8 @@ structure Link (env : Env) (file : AFile) (G : List String) (P : Prog) (F : GFil
   fnGo : ∀ g, g ∈ file → g.name ∈ G →
     ∃ st, F.findFunc (fnName g.name) = some (compileFn env st g).1 ∧ localOK env file G st g = true
   builtinSrc : ∀ b, b ∈ builtinNames → P.findFn b = none
+  refSrc : ∀ b, b ∈ refNames → P.findFn b = none
+  refGo : ∀ e, refTyOK env file (.ref e) = true → RefLink F e
   ty : TyLink env F
 
 /-- where the value of an assigned expression goes -/
@@ -49,10 +51,10 @@ def TgtOK (m : Mode) (Γ : Ctx) (gρ : GEnv) (ty : Ty) : Prop :=
   | .assign t => gid t ∈ keys gρ ∧ ∀ x tx, lookupTy Γ x = some tx → vn x ≠ gid t
 
 /-- what a run of the compiled statements `S` must do, given what the `Sem` run did -/
-def Concl (env : Env) (F : GFile) (S : List GStmt) (m : Mode) (gρ : GEnv) (gw : GWorld) (ty : Ty) : Res Val → Prop
-  | .ok v w' => ∃ D gv gw', BlockS F gρ gw S (.ok (D ++ post m gρ gv, .normal) gw') ∧ toGV env v = some gv ∧ HasTy env v ty ∧
-      WRel w' gw' ∧ (∀ y, y ∈ keys D → y ∈ ndDecls S)
-  | .fail (.panic k) w' => ∃ gw', BlockS F gρ gw S (.fail (.panic k) gw') ∧ WRel w' gw'
+def Concl (env : Env) (η : Hp) (F : GFile) (S : List GStmt) (m : Mode) (gρ : GEnv) (gw : GWorld) (ty : Ty) : Res Val → Prop
+  | .ok v w' => ∃ η', η.le η' ∧ ∃ D gv gw', BlockS F gρ gw S (.ok (D ++ post m gρ gv, .normal) gw') ∧ toGV env η' v = some gv ∧
+      HasTy env η' v ty ∧ WRel env η' w' gw' ∧ (∀ y, y ∈ keys D → y ∈ ndDecls S)
+  | .fail (.panic k) w' => ∃ η', η.le η' ∧ ∃ gw', BlockS F gρ gw S (.fail (.panic k) gw') ∧ WRel env η' w' gw'
   | _ => True
 
 /-- forms whose `Sem` evaluation leaves the world as it is (everything but calls) -/
@@ -77,16 +79,17 @@ def mayPanicC : CExpr → Bool
 /-- the same at expression level (a simple `CExpr` compiled by `compile_cexpr`); `pure`: the form
     cannot touch the world, and then the `Sem` world after it is the one before (`w`); only the forms
     of `mayPanic` panic -/
-def ConclV (env : Env) (F : GFile) (e : GExpr) (gρ : GEnv) (gw : GWorld) (ty : Ty) (pure mayPanic : Bool) (w : World) : Res Val → Prop
-  | .ok v w' => ∃ gv gw', EvS F gρ gw e (.ok gv gw') ∧ toGV env v = some gv ∧ HasTy env v ty ∧ WRel w' gw' ∧
-      (pure = true → w' = w)
-  | .fail (.panic k) w' => ∃ gw', EvS F gρ gw e (.fail (.panic k) gw') ∧ WRel w' gw' ∧ mayPanic = true
+def ConclV (env : Env) (η : Hp) (F : GFile) (e : GExpr) (gρ : GEnv) (gw : GWorld) (ty : Ty) (pure mayPanic : Bool) (w : World) : Res Val → Prop
+  | .ok v w' => ∃ η', η.le η' ∧ ∃ gv gw', EvS F gρ gw e (.ok gv gw') ∧ toGV env η' v = some gv ∧ HasTy env η' v ty ∧ WRel env η' w' gw' ∧
+      (pure = true → w' = w ∧ η' = η)
+  | .fail (.panic k) w' => ∃ η', η.le η' ∧ ∃ gw', EvS F gρ gw e (.fail (.panic k) gw') ∧ WRel env η' w' gw' ∧ mayPanic = true
   | _ => True
 
 /-- a call: `Sem.apply` of a named function against `callG` of its Go name -/
-def ConclCall (env : Env) (F : GFile) (gname : String) (gvs : List GVal) (gw : GWorld) (ty : Ty) : Res Val → Prop
-  | .ok v w' => ∃ gv gw', CallS F gw (.func gname) gvs (.ok gv gw') ∧ toGV env v = some gv ∧ HasTy env v ty ∧ WRel w' gw'
-  | .fail (.panic k) w' => ∃ gw', CallS F gw (.func gname) gvs (.fail (.panic k) gw') ∧ WRel w' gw'
+def ConclCall (env : Env) (η : Hp) (F : GFile) (gname : String) (gvs : List GVal) (gw : GWorld) (ty : Ty) : Res Val → Prop
+  | .ok v w' => ∃ η', η.le η' ∧ ∃ gv gw', CallS F gw (.func gname) gvs (.ok gv gw') ∧ toGV env η' v = some gv ∧ HasTy env η' v ty ∧
+      WRel env η' w' gw'
+  | .fail (.panic k) w' => ∃ η', η.le η' ∧ ∃ gw', CallS F gw (.func gname) gvs (.fail (.panic k) gw') ∧ WRel env η' w' gw'
   | _ => True
 
 section
@@ -94,35 +97,35 @@ variable (env : Env) (file : AFile) (G : List String) (P : Prog) (F : GFile)
 
 /-- calls of functions of `G` -/
 def SimU (n : Nat) : Prop :=
-  ∀ g, g ∈ file → g.name ∈ G → ∀ (vs : List Val) (gvs : List GVal) (w : World) (gw : GWorld),
-    ArgsRel env vs gvs (g.params.map (·.2)) → WRel w gw →
-    ConclCall env F (fnName g.name) gvs gw g.ret (Sem.apply n P w (.fn g.name) vs)
+  ∀ g, g ∈ file → g.name ∈ G → ∀ (η : Hp) (vs : List Val) (gvs : List GVal) (w : World) (gw : GWorld),
+    ArgsRel env η vs gvs (g.params.map (·.2)) → WRel env η w gw →
+    ConclCall env η F (fnName g.name) gvs gw g.ret (Sem.apply n P w (.fn g.name) vs)
 
 /-- calls of builtins -/
 def SimB (n : Nat) : Prop :=
-  ∀ b ps r, b ∈ builtinNames → builtinSig b = some (ps, r) → ∀ (vs : List Val) (gvs : List GVal) (w : World) (gw : GWorld),
-    ArgsRel env vs gvs ps → WRel w gw → ConclCall env F b gvs gw r (Sem.apply n P w (.fn b) vs)
+  ∀ b ps r, b ∈ builtinNames → builtinSig b = some (ps, r) → ∀ (η : Hp) (vs : List Val) (gvs : List GVal) (w : World) (gw : GWorld),
+    ArgsRel env η vs gvs ps → WRel env η w gw → ConclCall env η F b gvs gw r (Sem.apply n P w (.fn b) vs)
 
 /-- simple complex expressions (everything `compile_cexpr` handles) -/
 def SimV (n : Nat) : Prop :=
-  ∀ (c : CExpr) (Γ : Ctx) (K : KCtx) (ρ : Sem.Env) (w : World) (gρ : GEnv) (gw : GWorld) (Bad : List String),
-    isCtl c = false → fragC env file G Γ K c = true → EnvRel env Γ ρ gρ → KRel K ρ → WRel w gw →
-    (∀ y, y ∈ keys gρ → ¬ y ∈ Bad) → (∀ x, x ∈ calleesC c → vn x ∈ Bad) →
-    ConclV env F (compileCExpr env c) gρ gw c.annTy (pureC c) (mayPanicC c) w (Sem.eval n P ρ w c.toExpr)
+  ∀ (c : CExpr) (η : Hp) (Γ : Ctx) (K : KCtx) (ρ : Sem.Env) (w : World) (gρ : GEnv) (gw : GWorld) (Bad : List String),
+    isCtl c = false → fragC env file G Γ K c = true → EnvRel env η Γ ρ gρ → KRel K ρ → WRel env η w gw →
+    (∀ y, y ∈ keys gρ → ¬ y ∈ Bad) → (∀ x, x ∈ calleesC c → x ∈ Bad) →
+    ConclV env η F (compileCExpr env c) gρ gw c.annTy (pureC c) (mayPanicC c) w (Sem.eval n P ρ w c.toExpr)
 
 /-- `AExpr`s in either statement lowering -/
 def SimA (n : Nat) : Prop :=
-  ∀ (m : Mode) (st : St) (e : AExpr) (Γ : Ctx) (K : KCtx) (ρ : Sem.Env) (w : World) (gρ : GEnv) (gw : GWorld) (Bad : List String),
-    fragA env file G Γ K e = true → EnvRel env Γ ρ gρ → KRel K ρ → WRel w gw →
-    GInv Bad (compileA env m st e).1 gρ → TgtOK m Γ gρ (aTy e) → "_" ∈ Bad → (∀ x, x ∈ calleesA e → vn x ∈ Bad) →
-    Concl env F (compileA env m st e).1 m gρ gw (aTy e) (Sem.eval n P ρ w e.toExpr)
+  ∀ (m : Mode) (st : St) (e : AExpr) (η : Hp) (Γ : Ctx) (K : KCtx) (ρ : Sem.Env) (w : World) (gρ : GEnv) (gw : GWorld) (Bad : List String),
+    fragA env file G Γ K e = true → EnvRel env η Γ ρ gρ → KRel K ρ → WRel env η w gw →
+    GInv Bad (compileA env m st e).1 gρ → TgtOK m Γ gρ (aTy e) → "_" ∈ Bad → (∀ x, x ∈ calleesA e → x ∈ Bad) →
+    Concl env η F (compileA env m st e).1 m gρ gw (aTy e) (Sem.eval n P ρ w e.toExpr)
 
 /-- `CExpr`s in tail position of either statement lowering -/
 def SimC (n : Nat) : Prop :=
-  ∀ (m : Mode) (st : St) (c : CExpr) (Γ : Ctx) (K : KCtx) (ρ : Sem.Env) (w : World) (gρ : GEnv) (gw : GWorld) (Bad : List String),
-    fragC env file G Γ K c = true → EnvRel env Γ ρ gρ → KRel K ρ → WRel w gw →
-    GInv Bad (compileTail env m st c).1 gρ → TgtOK m Γ gρ c.annTy → "_" ∈ Bad → (∀ x, x ∈ calleesC c → vn x ∈ Bad) →
-    Concl env F (compileTail env m st c).1 m gρ gw c.annTy (Sem.eval n P ρ w c.toExpr)
+  ∀ (m : Mode) (st : St) (c : CExpr) (η : Hp) (Γ : Ctx) (K : KCtx) (ρ : Sem.Env) (w : World) (gρ : GEnv) (gw : GWorld) (Bad : List String),
+    fragC env file G Γ K c = true → EnvRel env η Γ ρ gρ → KRel K ρ → WRel env η w gw →
+    GInv Bad (compileTail env m st c).1 gρ → TgtOK m Γ gρ c.annTy → "_" ∈ Bad → (∀ x, x ∈ calleesC c → x ∈ Bad) →
+    Concl env η F (compileTail env m st c).1 m gρ gw c.annTy (Sem.eval n P ρ w c.toExpr)
 
 /-- the loop statement `compile_while` builds, started in an environment that holds the condition variable -/
 def loopBody (cv : String) (st : St) (c b : AExpr) : List GStmt :=
@@ -131,21 +134,22 @@ def loopBody (cv : String) (st : St) (c b : AExpr) : List GStmt :=
     (compileA env .effect (compileA env (.assign cv) st c).2 b).1
 
 def SimL (n : Nat) : Prop :=
-  ∀ (cv : String) (st : St) (c b : AExpr) (Γ : Ctx) (K : KCtx) (ρ : Sem.Env) (w : World) (gρ : GEnv) (gw : GWorld) (Bad : List String),
+  ∀ (cv : String) (st : St) (c b : AExpr) (η : Hp) (Γ : Ctx) (K : KCtx) (ρ : Sem.Env) (w : World) (gρ : GEnv) (gw : GWorld) (Bad : List String),
     fragA env file G Γ K c = true → aTy c = .bool → fragA env file G Γ K b = true → aTy b = .unit →
-    EnvRel env Γ ρ gρ → KRel K ρ → WRel w gw → GInv Bad (loopBody env cv st c b) gρ → TgtOK (.assign cv) Γ gρ .bool → "_" ∈ Bad →
-    (∀ x, x ∈ calleesA c ++ calleesA b → vn x ∈ Bad) →
+    EnvRel env η Γ ρ gρ → KRel K ρ → WRel env η w gw → GInv Bad (loopBody env cv st c b) gρ → TgtOK (.assign cv) Γ gρ .bool → "_" ∈ Bad →
+    (∀ x, x ∈ calleesA c ++ calleesA b → x ∈ Bad) →
     match Sem.eval n P ρ w (.while c.toExpr b.toExpr) with
-    | .ok v w' => v = .unit ∧ ∃ gw', StmtS F gρ gw (.loop (loopBody env cv st c b))
-        (.ok (updateG gρ (gid cv) (.bool false), .normal) gw') ∧ WRel w' gw'
-    | .fail (.panic k) w' => ∃ gw', StmtS F gρ gw (.loop (loopBody env cv st c b)) (.fail (.panic k) gw') ∧ WRel w' gw'
+    | .ok v w' => v = .unit ∧ ∃ η', η.le η' ∧ ∃ gw', StmtS F gρ gw (.loop (loopBody env cv st c b))
+        (.ok (updateG gρ (gid cv) (.bool false), .normal) gw') ∧ WRel env η' w' gw'
+    | .fail (.panic k) w' => ∃ η', η.le η' ∧ ∃ gw', StmtS F gρ gw (.loop (loopBody env cv st c b)) (.fail (.panic k) gw') ∧ WRel env η' w' gw'
     | _ => True
 
 /-- what the selected clause of a `switch` / type switch must do (the clauses are nested blocks:
     nothing they declare survives) -/
-def ConclSw (env : Env) (run : GRes (GEnv × Sig) → Prop) (m : Mode) (gρ : GEnv) (ty : Ty) : Res Val → Prop
-  | .ok v w' => ∃ gv gw', run (.ok (post m gρ gv, .normal) gw') ∧ toGV env v = some gv ∧ HasTy env v ty ∧ WRel w' gw'
-  | .fail (.panic k) w' => ∃ gw', run (.fail (.panic k) gw') ∧ WRel w' gw'
+def ConclSw (env : Env) (η : Hp) (run : GRes (GEnv × Sig) → Prop) (m : Mode) (gρ : GEnv) (ty : Ty) : Res Val → Prop
+  | .ok v w' => ∃ η', η.le η' ∧ ∃ gv gw', run (.ok (post m gρ gv, .normal) gw') ∧ toGV env η' v = some gv ∧ HasTy env η' v ty ∧
+      WRel env η' w' gw'
+  | .fail (.panic k) w' => ∃ η', η.le η' ∧ ∃ gw', run (.fail (.panic k) gw') ∧ WRel env η' w' gw'
   | _ => True
 
 /-- the names the compiled arms declare -/
@@ -160,25 +164,25 @@ def optDecls : Option (List GStmt) → List String
 /-- the arms of a `match` on an enum variable against the clauses of the type switch; `gρ` already
     holds the binding of the switch -/
 def SimME (n : Nat) : Prop :=
-  ∀ (m : Mode) (st : St) (arms : List AArm) (d : ADflt) (ty : Ty) (Γ : Ctx) (K : KCtx) (ρ : Sem.Env) (w : World)
+  ∀ (m : Mode) (st : St) (arms : List AArm) (d : ADflt) (ty : Ty) (η : Hp) (Γ : Ctx) (K : KCtx) (ρ : Sem.Env) (w : World)
     (gρ : GEnv) (gw : GWorld) (Bad : List String) (x en : String) (i : Nat) (vs : List Val) (gv : GVal),
     fragArms env file G Γ K (.enumK x (.enum en)) ty arms = true → fragD env file G Γ K ty d = true →
-    EnvRel env Γ ρ gρ → KRel K ρ → WRel w gw →
-    Sem.lookupEnv ρ x = some (.enumV en i vs) → HasTy env (.enumV en i vs) (.enum en) → toGV env (.enumV en i vs) = some gv →
+    EnvRel env η Γ ρ gρ → KRel K ρ → WRel env η w gw →
+    Sem.lookupEnv ρ x = some (.enumV en i vs) → HasTy env η (.enumV en i vs) (.enum en) → toGV env η (.enumV en i vs) = some gv →
     GInvN Bad (armDecls (compileArms env m st arms).1 ++ optDecls (compileDflt env m (compileArms env m st arms).2 d).1) gρ →
-    TgtOK m Γ gρ ty → "_" ∈ Bad → (∀ c, c ∈ calleesArms arms ++ calleesD d → vn c ∈ Bad) →
-    ConclSw env (TSwS F gρ gw gv (typeCases env (compileArms env m st arms).1) (compileDflt env m (compileArms env m st arms).2 d).1)
+    TgtOK m Γ gρ ty → "_" ∈ Bad → (∀ c, c ∈ calleesArms arms ++ calleesD d → c ∈ Bad) →
+    ConclSw env η (TSwS F gρ gw gv (typeCases env (compileArms env m st arms).1) (compileDflt env m (compileArms env m st arms).2 d).1)
       m gρ ty (Sem.evalArms n P ρ w (.enumV en i vs) (armsToExpr arms) (dfltToExpr d))
 
 /-- the arms of a `match` on a bool / integer / string against the cases of the value switch -/
 def SimMV (n : Nat) : Prop :=
-  ∀ (m : Mode) (st : St) (arms : List AArm) (d : ADflt) (ty sty : Ty) (Γ : Ctx) (K : KCtx) (ρ : Sem.Env) (w : World)
+  ∀ (m : Mode) (st : St) (arms : List AArm) (d : ADflt) (ty sty : Ty) (η : Hp) (Γ : Ctx) (K : KCtx) (ρ : Sem.Env) (w : World)
     (gρ : GEnv) (gw : GWorld) (Bad : List String) (v : Val) (gv : GVal),
     switchTy sty = true → fragArms env file G Γ K (.valK sty) ty arms = true → fragD env file G Γ K ty d = true →
-    EnvRel env Γ ρ gρ → KRel K ρ → WRel w gw → HasTy env v sty → toGV env v = some gv →
+    EnvRel env η Γ ρ gρ → KRel K ρ → WRel env η w gw → HasTy env η v sty → toGV env η v = some gv →
     GInvN Bad (armDecls (compileArms env m st arms).1 ++ optDecls (compileDflt env m (compileArms env m st arms).2 d).1) gρ →
-    TgtOK m Γ gρ ty → "_" ∈ Bad → (∀ c, c ∈ calleesArms arms ++ calleesD d → vn c ∈ Bad) →
-    ConclSw env (SwS F gρ gw gv (valueCases (matchKind sty) (compileArms env m st arms).1) (compileDflt env m (compileArms env m st arms).2 d).1)
+    TgtOK m Γ gρ ty → "_" ∈ Bad → (∀ c, c ∈ calleesArms arms ++ calleesD d → c ∈ Bad) →
+    ConclSw env η (SwS F gρ gw gv (valueCases (matchKind sty) (compileArms env m st arms).1) (compileDflt env m (compileArms env m st arms).2 d).1)
       m gρ ty (Sem.evalArms n P ρ w v (armsToExpr arms) (dfltToExpr d))
 
 /-- the statements a `match` on unit becomes: the first arm, else the default, in place -/
@@ -189,12 +193,12 @@ def fragUnit (Γ : Ctx) (K : KCtx) (ty : Ty) (arms : List AArm) (d : ADflt) : Bo
   if arms.isEmpty then isSomeD d && fragD env file G Γ K ty d else fragFirst env file G Γ K ty arms
 
 def SimMU (n : Nat) : Prop :=
-  ∀ (m : Mode) (st : St) (arms : List AArm) (d : ADflt) (ty : Ty) (Γ : Ctx) (K : KCtx) (ρ : Sem.Env) (w : World)
+  ∀ (m : Mode) (st : St) (arms : List AArm) (d : ADflt) (ty : Ty) (η : Hp) (Γ : Ctx) (K : KCtx) (ρ : Sem.Env) (w : World)
     (gρ : GEnv) (gw : GWorld) (Bad : List String),
-    fragUnit env file G Γ K ty arms d = true → EnvRel env Γ ρ gρ → KRel K ρ → WRel w gw →
+    fragUnit env file G Γ K ty arms d = true → EnvRel env η Γ ρ gρ → KRel K ρ → WRel env η w gw →
     GInv Bad (unitStmts env m st arms d).1 gρ → TgtOK m Γ gρ ty → "_" ∈ Bad →
-    (∀ c, c ∈ calleesArms arms ++ calleesD d → vn c ∈ Bad) →
-    Concl env F (unitStmts env m st arms d).1 m gρ gw ty (Sem.evalArms n P ρ w .unit (armsToExpr arms) (dfltToExpr d))
+    (∀ c, c ∈ calleesArms arms ++ calleesD d → c ∈ Bad) →
+    Concl env η F (unitStmts env m st arms d).1 m gρ gw ty (Sem.evalArms n P ρ w .unit (armsToExpr arms) (dfltToExpr d))
 
 structure SimAt (n : Nat) : Prop where
   u : SimU env file G P F n
